@@ -1,11 +1,19 @@
 import PbVerif.Driver.Util
 import PbVerif.Model.ConcCode
-/- `pbmodel_conc`: executes the protocol models of Model.Conc in the variant selected by the shape
-facts of the current tree (Model.ConcCode) on recorded event traces of the real code.
+/- `pbmodel_conc`: replays recorded event traces of the real code through the protocol models of
+Model.Conc.  Traces are checked against the SAFE protocol variants — the ones the theorems of
+Props/C18.lean and Props/C19.lean are about — so "accept" means: this execution is a run of the
+proved protocol, and the theorems' conclusions hold for it.  `facts` reports which variants the
+shape extractor selected from the current tree (Model.ConcCode).
 
   facts                                   → the selected variants
   lazy <ev>*                              → accept done=<n> cell=<id|nil> | reject <index>
-      ev: P i b | N i b | D i obj | C i won | L i obj       (b, won ∈ {0,1})
+      ev: P i b | N i b | D i obj | A i obj | M i | E i | C i won | L i obj       (b, won ∈ {0,1})
+      D i obj = one LazyDecoded record: allocation of obj and the merge of ALL index entries (A i obj, M i …, E i);
+      the number of entries is not recorded — the model is run with 2 (any number gives the same verdicts)
+  lazyn <n> <ev>*                         → same, for a tree whose hooks record every merged index entry (verifhook.LazyEntry):
+      the model is run with n entries; A i obj, one M i per LazyEntry record, E i at the LazyDecoded record — accepted only
+      if entries 0..n-1 precede the LazyDecoded record and the CAS (do not use D here)
   lazyobs <present> <r>*                  → consistent | inconsistent <thread>
       the observations (returned object per reader, `nil` = none) are those of some run of the model
   dcl <msginfo|file|once> <n> <ev>*       → accept runs=<r> flag=<0|1> written=<k> done=<d> | reject <index>
@@ -18,26 +26,34 @@ def bool? (s : String) : Option Bool := if s == "1" then some true else if s == 
 
 /-! ### lazy -/
 
+/-- the proved protocol: CAS from nil, re-load, publication after all entries -/
+def demoCfgN (present : Bool) (n : Nat) : Lazy.Cfg Unit Unit :=
+  { publish := .cas, result := .reload, timing := .afterAll, present := present, buf := (), entries := n, decodeK := fun _ _ => () }
+
+def demoCfg (present : Bool) : Lazy.Cfg Unit Unit := demoCfgN present 2
+
 def parseLazy : List String → Option (List Lazy.Ev)
   | [] => some []
   | "P" :: i :: b :: r => do pure (.present (← i.toNat?) (← bool? b) :: (← parseLazy r))
   | "N" :: i :: b :: r => do pure (.checkNil (← i.toNat?) (← bool? b) :: (← parseLazy r))
-  | "D" :: i :: o :: r => do pure (.decode (← i.toNat?) (← o.toNat?) :: (← parseLazy r))
+  | "D" :: i :: o :: r => do pure (Lazy.decodeEvents (demoCfg true) (← i.toNat?) (← o.toNat?) ++ (← parseLazy r))
+  | "A" :: i :: o :: r => do pure (.alloc (← i.toNat?) (← o.toNat?) :: (← parseLazy r))
+  | "M" :: i :: r => do pure (.merge (← i.toNat?) :: (← parseLazy r))
+  | "E" :: i :: r => do pure (.mergeEnd (← i.toNat?) :: (← parseLazy r))
   | "C" :: i :: b :: r => do pure (.publish (← i.toNat?) (← bool? b) :: (← parseLazy r))
   | "L" :: i :: o :: r => do pure (.load (← i.toNat?) (← o.toNat?) :: (← parseLazy r))
   | _ => none
 
 def lazyThreads (tr : List Lazy.Ev) : List Nat :=
-  (tr.map fun | .present i _ => i | .checkNil i _ => i | .decode i _ => i | .publish i _ => i | .load i _ => i).eraseDups
+  (tr.map fun | .present i _ => i | .checkNil i _ => i | .alloc i _ => i | .merge i => i | .mergeEnd i => i
+              | .publish i _ => i | .load i _ => i).eraseDups
 
-def demoCfg (present : Bool) : Lazy.Cfg Unit Unit := lazyCfg present () id
-
-def runLazy (tr : List Lazy.Ev) : String :=
+def runLazy (n : Nat) (tr : List Lazy.Ev) : String :=
   -- the presence bit is whatever the first `P` event observed (it is constant during a read-only phase)
   let present := match tr.find? (fun | .present _ _ => true | _ => false) with
     | some (.present _ b) => b
     | _ => true
-  let cfg := demoCfg present
+  let cfg := demoCfgN present n
   match Lazy.firstReject cfg Lazy.init tr 0 with
   | some k => s!"reject {k}"
   | none =>
@@ -51,7 +67,7 @@ def runLazy (tr : List Lazy.Ev) : String :=
 /-- the canonical run with `n` readers: reader 0 decodes and wins, the others find the cell set -/
 def canonical (present : Bool) (n : Nat) : List Lazy.Ev :=
   if present then
-    (if n = 0 then [] else [.present 0 true, .checkNil 0 true, .decode 0 0, .publish 0 true, .load 0 0]) ++
+    (if n = 0 then [] else [.present 0 true, .checkNil 0 true] ++ Lazy.decodeEvents (demoCfg true) 0 0 ++ [.publish 0 true, .load 0 0]) ++
     ((List.range n).drop 1).flatMap fun i => [.present i true, .checkNil i false, .load i 0]
   else (List.range n).map fun i => .present i false
 
@@ -86,10 +102,12 @@ def dclThreads (tr : List Dcl.Ev) : List Nat :=
   (tr.map fun | .fast i _ => i | .lock i => i | .recheck i _ => i | .write i _ => i | .bodyEnd i => i
               | .store i => i | .unlock i => i | .read i => i).eraseDups
 
+/-- the proved shapes of the three initialisers (n body writes; File: n+1, the first sets L2) -/
 def dclCfg? (which : String) (n : Nat) : Option Dcl.Cfg :=
-  if which == "msginfo" then some (msgInfoCfg n)
-  else if which == "file" then some (fileCfg n)
-  else if which == "once" then some (onceCfg n)
+  if which == "msginfo" || which == "once" then
+    some { writes := n, recheck := .flag, storeOnHit := false, order := .bodyThenStore, locks := true }
+  else if which == "file" then
+    some { writes := n + 1, recheck := .started, storeOnHit := true, order := .bodyThenStore, locks := true }
   else none
 
 def runDcl (cfg : Dcl.Cfg) (tr : List Dcl.Ev) : String :=
@@ -144,10 +162,14 @@ def concStep : List String → String
     let pub := match lazyPublish with | .cas => "cas" | .store => "store"
     let res := match lazyResult with | .reload => "reload" | .mine => "mine"
     let leg := match legacyCachePublish with | .cas => "cas" | .store => "store"
-    s!"lazy={pub}/{res} legacy={leg} msginfo={showDcl (msgInfoCfg 0)} file={showDcl (fileCfg 0)} once={showDcl (onceCfg 0)} reg=locks:{(regCfg (fun _ => .lookup) (fun _ => 0)).readerLocks}"
+    let tim := match lazyTiming with | .afterAll => "afterAll" | .insideLoop => "insideLoop"
+    s!"lazy={pub}/{res}/{tim} legacy={leg} msginfo={showDcl (msgInfoCfg 0)} file={showDcl (fileCfg 0)} once={showDcl (onceCfg 0)} reg=locks:{(regCfg (fun _ => .lookup) (fun _ => 0)).readerLocks}"
   | "lazy" :: evs => match parseLazy evs with
-    | some tr => runLazy tr
+    | some tr => runLazy 2 tr
     | none => "bad-op"
+  | "lazyn" :: n :: evs => match n.toNat?, parseLazy evs with
+    | some n, some tr => runLazy n tr
+    | _, _ => "bad-op"
   | "lazyobs" :: p :: obs => match bool? p, obs.mapM (fun w => if w == "nil" then some none else w.toNat?.map some) with
     | some p, some obs => runLazyObs p obs
     | _, _ => "bad-op"
